@@ -14,6 +14,7 @@ import KiraModel.Proofs.EffectsBReverb
 import KiraModel.Proofs.EffectsBLines
 import KiraModel.Proofs.EffectsBLinear
 import KiraModel.Proofs.EffectsBReverbLinear
+import KiraModel.Proofs.EffectsBReverbBound
 
 namespace K
 open Delay LineFx
@@ -332,5 +333,50 @@ theorem C13_allpass_bounded_fresh (n : ℕ) (hn : 1 ≤ n) (X : ℝ) (hX : 0 ≤
   obtain ⟨a', ys, h, hy, _⟩ := C13_allpass_bounded (AllPass.new n) (AllPass.new_wf n hn) X (2 * X) hX (le_refl _)
     (by intro e he; simp [AllPass.new] at he; rw [he.2]; simpa using (by linarith : (0 : ℝ) ≤ 2 * X)) xs hx
   exact ⟨a', ys, h, fun y hy' => by have := hy y hy'; linarith⟩
+
+/-- **the whole reverb is bounded for ever (fixed parameters).**
+    Full statement wanted by C13: finite output for finite input for every parameter trajectory in the
+    documented ranges.  Proved here for parameters idle on fixed values (`Stagnant`) with
+    `|feedback| < 1` (in the form `2·X·0.015 + |feedback|·Bc ≤ Bc`, i.e. `Bc ≥ 0.03·X/(1−|feedback|)`),
+    `0 ≤ damping ≤ 1`, `0 ≤ stereo width ≤ 1` and any mix: if every comb slot and store is within `Bc` and
+    all-pass stage `k` within `2·3ᵏ·n_c·Bc` (`ReverbLines.Within`; true of a fresh network for every
+    `Bc ≥ 0`), and the input frames are within `X`, then after a successful `process` call the lines satisfy
+    the same invariant and every output sample is within `3^(n_a)·n_c·Bc + X` (`n_c` comb pairs, `n_a`
+    all-pass pairs; 81·8·Bc + X for the Freeverb network) — hence for arbitrarily many calls.
+    Missing for the full statement: parameters that are tweening (their per-call values move inside the
+    ranges; the same invariant argument applies but is not carried through `Parameter.update`). -/
+theorem C13_reverb_bounded_partial (r : Reverb ℝ) (hr : r.Stagnant) (ls : ReverbLines ℝ)
+    (hst : r.state = some ls) (X Bc : ℝ) (hX : 0 ≤ X) (hB0 : 0 ≤ Bc)
+    (hB : 2 * X * (15 / 1000) + |r.feedback.raw| * Bc ≤ Bc)
+    (hdp0 : 0 ≤ r.damping.raw) (hdp1 : r.damping.raw ≤ 1)
+    (hsw0 : 0 ≤ r.stereoWidth.raw) (hsw1 : r.stereoWidth.raw ≤ 1)
+    (hs : ls.Within Bc) (xs : List (Frame ℝ)) (hx : ∀ x ∈ xs, |x.left| ≤ X ∧ |x.right| ≤ X)
+    (dt : ℝ) (info : Info ℝ) (r' : Reverb ℝ) (out : List (Frame ℝ))
+    (h : r.process xs dt info = .ok (r', out)) :
+    (∃ ls', r'.state = some ls' ∧ ls'.Within Bc ∧ ls'.combs.length = ls.combs.length
+        ∧ ls'.allPasses.length = ls.allPasses.length)
+      ∧ r'.Stagnant
+      ∧ ∀ y ∈ out, |y.left| ≤ 3 ^ ls.allPasses.length * (ls.combs.length * Bc) + X
+          ∧ |y.right| ≤ 3 ^ ls.allPasses.length * (ls.combs.length * Bc) + X := by
+  rw [Reverb.process_settled r hr, hst] at h
+  simp only at h
+  split at h
+  · cases h
+  · rename_i ls' o heq
+    have hg : (Gen.reverbGain : ℝ) = 15 / 1000 := by norm_num [Gen.reverbGain]
+    have hm := clamp_mem r.mix.raw 0 1 (by norm_num)
+    obtain ⟨a, b, c, d⟩ := Reverb.framesC_within _ _ _ _ X Bc hsw0 hsw1 hm.1 hm.2 hdp0 hdp1 hB0 hX
+      (by rw [hg]; exact hB) xs ls _ hx hs heq
+    cases h
+    exact ⟨⟨ls', rfl, a, b, c⟩, Reverb.settled_stagnant r hr ls', d⟩
+
+/-- a freshly initialised reverb satisfies the invariant for every `Bc ≥ 0` and has 8 comb pairs and 4
+    all-pass pairs: the bound above is `81·8·Bc + X` -/
+theorem C13_reverb_init_within (sr : ℕ) (Bc : ℝ) (hB : 0 ≤ Bc) :
+    (ReverbLines.init sr : ReverbLines ℝ).Within Bc
+      ∧ (ReverbLines.init sr : ReverbLines ℝ).combs.length = 8
+      ∧ (ReverbLines.init sr : ReverbLines ℝ).allPasses.length = 4 :=
+  ⟨ReverbLines.init_within sr Bc hB, by simp [ReverbLines.init, Gen.reverbCombTuning],
+    by simp [ReverbLines.init, Gen.reverbAllPassTuning]⟩
 
 end K
